@@ -1,162 +1,9 @@
 (* Line-protocol driver around the extracted models.
    usage: driver <command> < cases > model-output
    One output line per input line, in the same canonical syntax the Go harness
-   uses for what it observed on the implementation. *)
-open Conv
-
-(* ---- C15 MemIdm ------------------------------------------------------ *)
-module Idm = struct
-  open Model
-  let rec parse_ops toks = match toks with
-    | [] -> []
-    | "AG" :: n :: r -> AddGroup (str_of_tok n) :: parse_ops r
-    | "AU" :: n :: g :: r -> AddUser (str_of_tok n, str_of_tok g) :: parse_ops r
-    | "DG" :: n :: r -> DelGroup (str_of_tok n) :: parse_ops r
-    | "DU" :: n :: r -> DelUser (str_of_tok n) :: parse_ops r
-    | "LG" :: n :: r -> LookupGroup (str_of_tok n) :: parse_ops r
-    | "LGI" :: i :: r -> LookupGroupId (z_of_int (int_of_string i)) :: parse_ops r
-    | "LU" :: n :: r -> LookupUser (str_of_tok n) :: parse_ops r
-    | "LUI" :: i :: r -> LookupUserId (z_of_int (int_of_string i)) :: parse_ops r
-    | t :: _ -> failwith ("idm: bad op " ^ t)
-  let show_res r = match r with
-    | RGroup (n, g) -> Printf.sprintf "G %s %d" (tok_of_str n) (int_of_z g)
-    | RUser (n, u, g, a) -> Printf.sprintf "U %s %d %d %d" (tok_of_str n) (int_of_z u) (int_of_z g) (if a then 1 else 0)
-    | RNil -> "NIL"
-    | RErr (AlreadyExistsGroup n) -> "E AEG " ^ tok_of_str n
-    | RErr (AlreadyExistsUser n) -> "E AEU " ^ tok_of_str n
-    | RErr (UnknownGroup n) -> "E UG " ^ tok_of_str n
-    | RErr (UnknownUser n) -> "E UU " ^ tok_of_str n
-    | RErr (UnknownGroupId i) -> Printf.sprintf "E UGI %d" (int_of_z i)
-    | RErr (UnknownUserId i) -> Printf.sprintf "E UUI %d" (int_of_z i)
-  (* line: <an> <gn> | op | op ... ; prints results joined by " | " *)
-  let run () =
-    iter_lines (fun line ->
-      match split_bar line with
-      | hd :: ops ->
-          (match split_ws hd with
-           | [an; gn] ->
-               let ops = List.concat_map (fun o -> parse_ops (split_ws o)) ops in
-               let (_, outs) = idm_run (idm_init (str_of_tok an) (str_of_tok gn)) ops in
-               print_endline (String.concat " | " (List.map show_res outs))
-           | _ -> print_endline "BADLINE")
-      | _ -> print_endline "BADLINE")
-  (* concurrent: <an> <gn> T op... T op... S i i i ... ; prints per-thread results *)
-  let run_conc () =
-    iter_lines (fun line ->
-      match split_ws line with
-      | an :: gn :: rest ->
-          let rec split_threads acc cur toks = match toks with
-            | [] -> (List.rev (List.rev cur :: acc), [])
-            | "T" :: r -> split_threads (if cur = [] && acc = [] then acc else List.rev cur :: acc) [] r
-            | "S" :: r -> (List.rev (List.rev cur :: acc), r)
-            | t :: r -> split_threads acc (t :: cur) r in
-          let (ths, sched) = split_threads [] [] rest in
-          let threads = List.map (fun toks -> { t_todo = parse_ops toks; t_pend = PNone; t_out = [] }) ths in
-          let sched = List.map (fun s -> nat_of_int (int_of_string s)) sched in
-          let (_, ths') = crun (idm_init (str_of_tok an) (str_of_tok gn), threads) sched in
-          print_endline (String.concat " | " (List.map (fun t ->
-            String.concat " ; " (List.map show_res t.t_out)) ths'))
-      | _ -> print_endline "BADLINE")
-end
-
-(* ---- C16 copy ---------------------------------------------------------- *)
-module Copy = struct
-  open Model
-  let prim_of s = match s with
-    | "SO" -> SrcOpen | "SR" -> SrcRead | "SC" -> SrcClose | "SS" -> SrcStat
-    | "DO" -> DstOpen | "DW" -> DstWrite | "DY" -> DstSync | "DM" -> DstChmod | "DC" -> DstClose
-    | _ -> failwith ("copy: bad prim " ^ s)
-  let show_prim p = match p with
-    | SrcOpen -> "SO" | SrcRead -> "SR" | SrcClose -> "SC" | SrcStat -> "SS"
-    | DstOpen -> "DO" | DstWrite -> "DW" | DstSync -> "DY" | DstChmod -> "DM" | DstClose -> "DC"
-  let content size cseed : str =
-    List.init size (fun i -> n_of_int ((i * 131 + cseed * 17 + (i lsr 8)) land 255))
-  let md5hex (s : str) = Digest.to_hex (Digest.string (string_of_str s))
-  let show_err e = match e with None -> "nil" | Some k -> Printf.sprintf "E%d" (int_of_n k)
-  let show_trace tr = String.concat "," (List.map (fun (p, i) -> show_prim p ^ string_of_int (int_of_nat i)) tr)
-  let bufsize = nat_of_int 32768
-  let run () =
-    iter_lines (fun line ->
-      match split_bar line with
-      | hd :: faults ->
-          let faults = List.mapi (fun k f -> match split_ws f with
-            | [p; i] -> ((prim_of p, nat_of_int (int_of_string i)), n_of_int (k + 1))
-            | _ -> failwith "copy: bad fault") faults in
-          (match split_ws hd with
-           | ["copy"; _; _; h; size; cseed; smode; dperm] ->
-               let c = content (int_of_string size) (int_of_string cseed) in
-               let dperm = int_of_string dperm in
-               let dst0 = if dperm < 0 then None else Some (str_of_string "old-content", n_of_int dperm) in
-               let r = copy_transcript faults (h = "1") bufsize c (n_of_int (int_of_string smode)) dst0 (n_of_int 0o644) in
-               let sum = match r.c_sum with None -> "nil" | Some t -> md5hex t in
-               let dst = match r.c_dst with
-                 | None -> "absent"
-                 | Some (b, p) -> Printf.sprintf "%d:%s:%o" (List.length b) (md5hex b) (int_of_n p) in
-               Printf.printf "err=%s sum=%s dst=%s trace=%s\n" (show_err r.c_err) sum dst (show_trace r.c_trace)
-           | ["hash"; _; _; _; size; cseed; _; _] ->
-               let c = content (int_of_string size) (int_of_string cseed) in
-               let ((sum, e), tr) = hash_transcript faults bufsize c in
-               let sum = match sum with None -> "nil" | Some t -> md5hex t in
-               Printf.printf "err=%s sum=%s trace=%s\n" (show_err e) sum (show_trace tr)
-           | _ -> print_endline "BADLINE")
-      | _ -> print_endline "BADLINE")
-end
-
-(* ---- C13 paths --------------------------------------------------------- *)
-module Path = struct
-  open Model
-  let os_of s = match s with "linux" -> Linux | "windows" -> Windows | _ -> failwith "bad os"
-  let t = tok_of_str
-  let b x = if x then "1" else "0"
-  let show_rel r = match r with RelOk s -> "ok:" ^ t s | RelErr -> "err" | RelLoop -> "loop"
-  let show_match r = match r with MVal true -> "1" | MVal false -> "0" | MBad -> "bad"
-  let curdir os = match os with Linux -> str_of_string "/cur/dir" | Windows -> str_of_string "C:\\cur"
-  let one os s =
-    let (d, f) = split os s in
-    Printf.sprintf "clean=%s split=%s,%s dir=%s base=%s isabs=%s from=%s to=%s vol=%s vnl=%d abs=%s"
-      (t (clean os s)) (t d) (t f) (t (dir os s)) (t (base os s)) (b (is_abs os s))
-      (t (from_slash os s)) (t (to_slash os s)) (t (volume_name os s)) (int_of_nat (volume_name_len os s))
-      (t (abs os (curdir os) s))
-  let two os a c check_rest =
-    Printf.sprintf "join=%s join3=%s rel=%s match=%s"
-      (t (join os [a; c])) (t (join os [c; a; c])) (show_rel (rel os a c)) (show_match (path_match os check_rest a c))
-  let show_pi p =
-    Printf.sprintf "%d:%d:%s:%s:%s:%s" (int_of_nat p.pi_start) (int_of_nat p.pi_end)
-      (t (pi_part p)) (t (pi_left p)) (t (pi_right p)) (b (pi_is_last p))
-  (* iterate to the end (bounded), returning the shown positions *)
-  let rec iter os p fuel acc =
-    if fuel = 0 then List.rev ("FUEL" :: acc) else
-    let (ok, p') = pi_next os p in
-    if ok then iter os p' (fuel - 1) (show_pi p' :: acc) else List.rev acc
-  let pi os path np =
-    let p0 = pi_new os path in
-    let parts = iter os p0 64 [] in
-    let n = List.length parts in
-    let reps = List.init n (fun k ->
-      (* advance k+1 times, then ReplacePart *)
-      let rec adv p j = if j = 0 then p else adv (snd (pi_next os p)) (j - 1) in
-      let p = adv p0 (k + 1) in
-      let (reset, p') = pi_replace_part os p np in
-      Printf.sprintf "%s>%s:%d:%d>%s" (b reset) (t p'.pi_path) (int_of_nat p'.pi_start) (int_of_nat p'.pi_end)
-        (String.concat "," (iter os p' 64 []))) in
-    Printf.sprintf "parts=%s repl=%s" (String.concat "," parts) (String.concat ";" reps)
-  let run () =
-    iter_lines (fun line ->
-      match split_ws line with
-      | ["one"; os; s] -> let os = os_of os in let s = str_of_tok s in
-          (* second segment: what path/filepath must return (same functions: avfs claims equality) *)
-          let r = one os s in
-          print_endline (if os = Linux then r ^ " || " ^ r else r)
-      | ["two"; os; a; c] -> let os = os_of os in let a = str_of_tok a and c = str_of_tok c in
-          print_endline (if os = Linux then two os a c false ^ " || " ^ two os a c false else two os a c false)
-      | ["pi"; os; path; np] -> print_endline (pi (os_of os) (str_of_tok path) (str_of_tok np))
-      | _ -> print_endline "BADLINE")
-end
-
+   uses for what it observed on the implementation.  The commands live in the
+   drv_*.ml files, each of which registers itself with Conv.register. *)
 let () =
   match Sys.argv with
-  | [| _; "path" |] -> Path.run ()
-  | [| _; "copy" |] -> Copy.run ()
-  | [| _; "idm" |] -> Idm.run ()
-  | [| _; "idm-conc" |] -> Idm.run_conc ()
+  | [| _; cmd |] -> Conv.dispatch cmd
   | _ -> prerr_endline "usage: driver <command>"; exit 2
